@@ -2,6 +2,7 @@
 """prints the prompt given to an independent mutation sub-agent for property <id> (only the property text, nothing from /verif)"""
 import json, sys
 pid = sys.argv[1]
+rnd = sys.argv[2] if len(sys.argv) > 2 else ''   # round tag: scratch directories /tmp/mut<rnd>-<id>
 for l in open('/verif/properties.jsonl'):
     p = json.loads(l)
     if p['id'] == pid:
@@ -16,9 +17,10 @@ Quantified over: {p['quantifier']['text']}
 Code it is anchored in: {', '.join(p['anchors']['files'])}
 
 Rules:
-* Do NOT look at or use anything under /verif (it does not concern you). Do NOT modify /repo itself. Work ONLY in your own scratch git worktree: `git -C /repo worktree add --detach /tmp/mut-{p['id']} HEAD` and edit/build/test there (`cd /tmp/mut-{p['id']} && cargo test --offline`). When you are done, remove its build output (`rm -rf /tmp/mut-{p['id']}/target`) but leave the worktree for inspection.
+* Do NOT look at or use anything under /verif (it does not concern you). Do NOT modify /repo itself. Work ONLY in your own scratch git worktree: `git -C /repo worktree add --detach /tmp/mut{rnd}-{p['id']} HEAD` and edit/build/test there (`cd /tmp/mut{rnd}-{p['id']} && cargo test --offline`). When you are done, remove its build output (`rm -rf /tmp/mut{rnd}-{p['id']}/target`) but leave the worktree for inspection.
 * Prefer changes that need something SPECIFIC to manifest — a particular multi-step sequence of operations, an unusual input or boundary value, a particular batching/interleaving, or two cooperating sites that each look fine alone — NOT ones that ordinary use or the existing tests would expose at once. They should look like plausible refactorings, optimisations or "fixes" a maintainer might commit (no comments announcing the bug).
+* Avoid the single most obvious idea (one changed constant in the most central function). Look in second-order places: helper functions, rarely taken branches, initialisation/reset paths, value ranges near wrap-around, interactions between two modules.
 * Each mutation must violate the property as stated (observable behaviour), not merely change internals.
 * Demonstration: a small Rust test (e.g. a `#[test]` added in a NEW file or appended test module inside the worktree, or a tiny program using the crate's modules) that passes on the unchanged code and fails with the mutation applied. Say exactly how to run it.
-* Deliver, for mutation k = 1, 2: `/tmp/mut-{p['id']}-out/m<k>/patch.diff` (output of `git diff` for the mutation only, applicable with `git apply` on /repo's HEAD, NOT including the demonstration), `/tmp/mut-{p['id']}-out/m<k>/demo.diff` (the demonstration as a separate patch on top of HEAD), and `/tmp/mut-{p['id']}-out/m<k>/README.md` (what the change is, which clause of the property it breaks, what is needed for it to manifest, the exact commands you ran and their results: tests pass with the patch in both feature configurations, demo fails with the patch and passes without).
+* Deliver, for mutation k = 1, 2: `/tmp/mut{rnd}-{p['id']}-out/m<k>/patch.diff` (output of `git diff` for the mutation only, applicable with `git apply` on /repo's HEAD, NOT including the demonstration), `/tmp/mut{rnd}-{p['id']}-out/m<k>/demo.diff` (the demonstration as a separate patch on top of HEAD), and `/tmp/mut{rnd}-{p['id']}-out/m<k>/README.md` (what the change is, which clause of the property it breaks, what is needed for it to manifest, the exact commands you ran and their results: tests pass with the patch in both feature configurations, demo fails with the patch and passes without).
 * Verify everything yourself before reporting. Report back a short summary of each mutation (one paragraph each).""")
